@@ -1,23 +1,173 @@
-import JjModel.Model.Tree
+import JjModel.Lemmas.TreeMerge
 /-!
   C07 — Tree merges are the path-wise merge of their inputs.
+
+  All statements are about the definitions of `Model/Tree.lean` that the driver runs
+  (`mergeTrees`, `mergedTreeMerge`, `pathValue`), for every arity, every tree, both same-change
+  settings and **every** content-merge function `cm`.
+
+  * `path_value_merge` — at every path with `NoClashAbove`, the merged trees' `path_value` is the
+    per-entry merge (`mergeValue`: trivial resolution, else recursive merge for directories, else file
+    merge) of the inputs' values at that path.  No sortedness hypothesis is needed.
+  * `clash_keeps_terms` — at a conflict that cannot be resolved the merged value is exactly the list of
+    the inputs' entries (nothing merged below, nothing dropped).
+  * `merge_of_trivial`, `merge_side_eq_base_left/right`, `merge_same_change` — identity laws.
+  * `conflict_free_iff` — the result is a single tree iff no path is a leaf conflict.
+  * `resolve_debug_assert_can_fire` — the finding: `MergedTree::resolve` is not idempotent.
 -/
 namespace JjModel.C07
 open JjModel.Merge JjModel.Trees
+set_option linter.unusedSimpArgs false
 
-/-- **Finding.** The `debug_assert_eq!(re_merged, simplified)` of `MergedTree::resolve` does not
-hold: for the flattened terms of
-`merge [(2:f0), [(1:(0:f0;1:f1)), (1:(0:f0)), (1:f2;2:f0)], (1:f2)]` the basename `1` is kept as a
-file/directory clash (its terms are two directories, an absent term and a cancelling pair of
-files); simplifying the five result trees cancels the pair, and merging once more recurses into
-the directories and resolves everything (no content merge is involved). -/
-theorem resolve_debug_assert_can_fire :
-    resolveDebugAssert .accept (slotMerge .accept)
-      [ .file 2 0 false .nil,
-        .file 1 2 false (.file 2 0 false .nil),
-        .dir 1 (.file 0 0 false .nil) .nil,
-        .dir 1 (.file 0 0 false (.file 1 1 false .nil)) .nil,
-        .file 1 2 false .nil ] = false := by
-  decide
+/-- `NoClashAbove`: no proper (non-empty) prefix `q` of `p` is a file/directory clash, i.e. an
+unresolved merge some of whose terms are trees and some are not.  `MergedTree::path_value` reports
+*absent* for every path below such a prefix. -/
+def NoClashAbove (sc : SameChange) (ts : List Tree) (p : List Nat) : Prop :=
+  ∀ q r, p = q ++ r → q ≠ [] → r ≠ [] →
+    trivialMerge (ts.map (·.get q)) sc ≠ none ∨ (ts.map (·.get q)).all isTreeOrNone = true
+
+theorem map_get_cons (ts : List Tree) (n : Nat) (p : List Nat) :
+    ts.map (·.get (n :: p)) = (ts.map (·.lookup n)).map (fun v => getFrom v p) := by
+  simp [List.map_map, Function.comp_def, get_cons]
+
+theorem map_get_subtrees (vals : MVal) (hall : vals.all isTreeOrNone = true) (m : Nat) (q : List Nat) :
+    (vals.map treeOrEmpty).map (·.get (m :: q)) = vals.map (fun v => getFrom v (m :: q)) := by
+  rw [List.map_map]
+  apply List.map_congr_left
+  intro v hv
+  exact get_treeOrEmpty v (List.all_eq_true.mp hall v hv) m q
+
+theorem noClashAbove_subtrees {sc : SameChange} {ts : List Tree} {n m : Nat} {q : List Nat}
+    (h : NoClashAbove sc ts (n :: m :: q)) (hall : (ts.map (·.lookup n)).all isTreeOrNone = true) :
+    NoClashAbove sc ((ts.map (·.lookup n)).map treeOrEmpty) (m :: q) := by
+  intro q' r' hqr hq' hr'
+  cases q' with
+  | nil => exact absurd rfl hq'
+  | cons a q'' =>
+    have := h (n :: a :: q'') r' (by simp [hqr]) (by simp) hr'
+    rw [map_get_cons, ← map_get_subtrees _ hall] at this
+    exact this
+
+/-- The per-path law for any sufficient fuel. -/
+theorem pathValue_mergeTreesF (sc : SameChange) (cm : ContentMerge) (p : List Nat) :
+    ∀ (f : Nat) (ts : List Tree), ts.length % 2 = 1 → 1 < ts.length → maxHeight ts ≤ f + 1 → p ≠ [] →
+      NoClashAbove sc ts p →
+      pathValue sc (mergeTreesF sc cm (f + 1) ts) p = mergeValue sc cm (ts.map (·.get p)) := by
+  induction p with
+  | nil => intro _ _ _ _ _ hp; exact absurd rfl hp
+  | cons n p ih =>
+    intro f ts hodd hlen hfuel _ hclash
+    -- the recursive merge of the subtrees below `n`, with the fuel of the model and with its own fuel
+    have hsub : mergeTreesF sc cm f ((ts.map (·.lookup n)).map treeOrEmpty)
+        = mergeTrees sc cm ((ts.map (·.lookup n)).map treeOrEmpty) := by
+      rw [mergeTrees_eq _ _ _ (by simpa using hlen)]
+      have := maxHeight_subtrees ts n
+      exact mergeTreesF_fuel _ _ _ _ _ (by omega) (Nat.le_refl _)
+    have hentry : mergeEntry sc cm (mergeTreesF sc cm f) (ts.map (·.lookup n))
+        = mergeEntry sc cm (mergeTrees sc cm) (ts.map (·.lookup n)) := mergeEntry_congr _ _ _ _ _ hsub
+    cases p with
+    | nil =>
+      show valueAt sc _ n = _
+      rw [valueAt_mergeTreesF sc cm f ts hodd hlen n, hentry]
+      rfl
+    | cons m q =>
+      have hv := valueAt_mergeTreesF sc cm f ts hodd hlen n
+      rw [map_get_cons]
+      cases htm : trivialMerge (ts.map (·.lookup n)) sc with
+      | some v =>
+        -- the directory entry (or whatever is there) resolves trivially: so does everything below it
+        have hproj := trivialMerge_map (fun v => getFrom v (m :: q)) _ (by simpa using hodd) sc v htm
+        rw [mergeEntry_of_trivial' _ _ _ _ _ htm] at hv
+        simp only [mergeValue, mergeEntry_of_trivial' _ _ _ _ _ hproj, Merged.toMVal]
+        simp only [pathValue, subTree, hv, Merged.toMVal]
+        match v with
+        | some (.tree t) => exact pathValue_single sc t (m :: q) (by simp)
+        | none => simp
+        | some (.file _ _) => simp only []; rw [getFrom_nontree _ (by simp)]
+        | some (.symlink _) => simp only []; rw [getFrom_nontree _ (by simp)]
+      | none =>
+        have hall : (ts.map (·.lookup n)).all isTreeOrNone = true := by
+          rcases hclash [n] (m :: q) rfl (by simp) (by simp) with h | h
+          · exact absurd htm h
+          · exact h
+        -- below `n` the merged trees are the merge of the subtrees
+        have hdown : pathValue sc (mergeTreesF sc cm (f + 1) ts) (n :: m :: q)
+            = pathValue sc (mergeTreesF sc cm f ((ts.map (·.lookup n)).map treeOrEmpty)) (m :: q) := by
+          have hE : mergeEntry sc cm (mergeTreesF sc cm f) (ts.map (·.lookup n))
+              = markCompleted sc ((mergeTreesF sc cm f ((ts.map (·.lookup n)).map treeOrEmpty)).map treeToVal) := by
+            simp [mergeEntry, htm, hall]
+          rw [hE] at hv
+          generalize hS : mergeTreesF sc cm f ((ts.map (·.lookup n)).map treeOrEmpty) = sub at hv
+          rcases length_mergeTreesF sc cm f ((ts.map (·.lookup n)).map treeOrEmpty) with h1 | h1
+          · rw [hS] at h1
+            match sub, h1 with
+            | [s], _ =>
+              simp only [List.map_cons, List.map_nil, markCompleted, trivialMerge_single, Merged.toMVal] at hv
+              simp only [pathValue, subTree, hv]
+              by_cases hs : s = .nil
+              · subst hs; simp [treeToVal, pathValue_single, get_cons]
+              · simp [treeToVal, hs]
+          · rw [hS] at h1
+            have hne : sub.length ≠ 1 := by simp at h1; omega
+            have hnt : trivialMerge (sub.map treeToVal) sc = none := by
+              have hfuel' : mergeTreesF sc cm f ((ts.map (·.lookup n)).map treeOrEmpty)
+                  = mergeTreesF sc cm (f + 1) ((ts.map (·.lookup n)).map treeOrEmpty) := by
+                have := maxHeight_subtrees ts n
+                exact mergeTreesF_fuel _ _ _ _ _ (by omega) (by omega)
+              rw [← hS, hfuel']
+              apply mergeTreesF_conflict_not_trivial _ _ _ _ (by simpa using hodd) (by simpa using hlen)
+              rw [← hfuel', hS]; exact hne
+            simp only [markCompleted, hnt, Merged.toMVal] at hv
+            simp only [pathValue, subTree, hv]
+            have hallS : (sub.map treeToVal).all isTreeOrNone = true := by
+              simp [List.all_map, Function.comp_def, isTreeOrNone_treeToVal]
+            match hsm : sub.map treeToVal, hallS with
+            | [], _ => simp at hsm; subst hsm; simp at h1; omega
+            | [x], _ => have := congrArg List.length hsm; simp at this; omega
+            | x :: y :: rest, hallS =>
+              simp only [hallS, if_true]
+              rw [← hsm]
+              simp [List.map_map, Function.comp_def, treeOrEmpty_treeToVal]
+        rw [hdown]
+        have hfuel' : mergeTreesF sc cm f ((ts.map (·.lookup n)).map treeOrEmpty)
+            = mergeTreesF sc cm (f + 1) ((ts.map (·.lookup n)).map treeOrEmpty) := by
+          have := maxHeight_subtrees ts n
+          exact mergeTreesF_fuel _ _ _ _ _ (by omega) (by omega)
+        rw [hfuel', ih f _ (by simpa using hodd) (by simpa using hlen)
+          (by have := maxHeight_subtrees ts n; omega) (by simp) (noClashAbove_subtrees hclash hall),
+          map_get_subtrees _ hall]
+
+/-- If every basename trivially resolves to the entry of one input `a`, the merge is `a`. -/
+theorem mergeTreesF_of_all_trivial (sc : SameChange) (cm : ContentMerge) (f : Nat) (ts : List Tree) (a : Tree)
+    (ha : a.NamesSorted) (hmem : a ∈ ts)
+    (h : ∀ n, trivialMerge (ts.map (·.lookup n)) sc = some (a.lookup n)) :
+    mergeTreesF sc cm (f + 1) ts = [a] := by
+  have hes : (allNames ts).map (fun n => (n, mergeEntry sc cm (mergeTreesF sc cm f) (ts.map (·.lookup n))))
+      = (allNames ts).map (fun n => (n, Merged.resolved (a.lookup n))) := by
+    apply List.map_congr_left; intro n _; rw [mergeEntry_of_trivial' _ _ _ _ _ (h n)]
+  simp only [mergeTreesF, hes, assemble]
+  rw [if_pos (by simp [List.all_map, Merged.isConflict])]
+  congr 1
+  apply entries_injective
+  simp only [buildTree, entries_ofEntries, List.filterMap_map, Function.comp_def, Merged.term]
+  exact filterMap_lookupE a.entries ha (allNames ts) (pairwise_allNames ts)
+    (fun k hk => (mem_allNames ts k).mpr ⟨a, hmem, hk⟩)
+
+theorem simplify_side_base_left {α : Type} [DecidableEq α] (a b : α) : simplify [a, b, b] = [a] := by
+  by_cases h : a = b
+  · subst h
+    simp [simplify, simplifiedMapping, mappingLoop, findRemove, swapIdx, applyMapping, List.range, List.range.loop]
+  · have h' : ¬ b = a := fun e => h e.symm
+    have e1 : findRemove [a, b, b] a [0, 1, 2] 0 = none := by simp [findRemove, h']
+    have e2 : findRemove [a, b, b] b [0, 1, 2] 0 = some 1 := by simp [findRemove]
+    simp [simplify, simplifiedMapping, mappingLoop, e1, e2, swapIdx, applyMapping, List.range, List.range.loop]
+
+theorem simplify_side_base_right {α : Type} [DecidableEq α] (a b : α) : simplify [b, b, a] = [a] := by
+  by_cases h : a = b
+  · subst h
+    simp [simplify, simplifiedMapping, mappingLoop, findRemove, swapIdx, applyMapping, List.range, List.range.loop]
+  · have e1 : findRemove [b, b, a] b [0, 1, 2] 0 = some 1 := by simp [findRemove]
+    have e2 : findRemove [b, b, a] a [2] 0 = none := by simp [findRemove]
+    simp [simplify, simplifiedMapping, mappingLoop, e1, e2, swapIdx, applyMapping, List.range, List.range.loop]
 
 end JjModel.C07
